@@ -7,6 +7,14 @@ Props/C14.lean.  Three correspondence streams tie the action model to the code:
          observations from inside the callback and a concurrent reader
   trace  a child process under strace: the system-call sequence in the destination directory, every injected
          write/close/rename error, SIGKILL on entry to every system call (skipped, and said so, without strace)
+  hist   a child process under strace running an arbitrary HISTORY of the safe.File API with a fault on any of its system
+         calls (one per name, up to four in a run) and SIGKILL on entry to any call; model: Safe.apiRunFull (Model/SafeFileHist.lean),
+         theorems Props/C14Hist.lean
+  multi  a child process under strace: two or three faults in one WriteFileWithMode; model: Safe.writeFileMulti
+  duo    in-process: two safe.File handles on one destination, calls interleaved call by call; model: two Safe.File.stepU machines
+         on one directory (the interleavings Props/C14RaceHist.lean quantifies over)
+Props/C14Race.lean (two concurrent writers, every interleaving) has no stream of its own: it is about the same Safe.writeFile
+the streams wf/trace execute; the oracle `race` runs real goroutines.
 """
 import os
 import re
@@ -65,6 +73,19 @@ def _calibrate(ctx):
     ctx.extra["buffer_size"] = {"value": n, "source": src, "source_text": how if parsed is not None else None}
 
 
+def _hist_tag(line, out):
+    """distribution of the generated histories, printed into the evidence: which system calls carry a fault, whether the
+    line is a kill, and what the model says happened to the destination"""
+    f = line.split()
+    if len(f) < 6 or f[0] not in ("hist", "hkill"):
+        return None
+    faults = "+".join(sorted(x.split(":")[0] for x in f[5].split(","))) if f[5] != "-" else "nofault"
+    ops = f[4].split(".")
+    shape = "".join(o[0] for o in ops)
+    first_end = next((c for c in shape if c in "CX"), "-")
+    return "%s:%s:first=%s:%s" % (f[0], faults, first_end, "F" if "F" in shape else "noF")
+
+
 def run(ctx):
     shards = 14 if ctx.tier == "thorough" else 8
     os.environ["C14_SHARDS"] = str(shards)
@@ -73,6 +94,10 @@ def run(ctx):
         "not proved); a kill point is a prefix of the action sequence (SIGKILL on system-call entry)",
         "the temporary name is a parameter of the model (strace output is compared with the name abstracted to `tmp`); "
         "a failing unlink of the temporary file is modelled (Act2.unlinkFail, File.closeU/commitU) and injected under strace",
+        "histories of the File API with a fault on every system call (Safe.OpU / File.stepsU / apiRunFull, incl. a failing "
+        "close(2) of the embedded Close) are proved to refine an abstract specification without temporary file (Safe.Abs) and are "
+        "compared with strace runs (area hist); writeFileMulti = WriteFileWithMode with a primary fault plus a failing deferred "
+        "close(2) and/or unlink (area multi)",
         "bufio.Writer is transcribed with its sticky error (Safe.BW.write/flush test err first; Lemmas writeFile_closed "
         "proves it equal to the closed form chunk rule Safe.bufWrite + stop at the failing write, for every callback "
         "behaviour); the buffer size is measured from the code's behaviour "
@@ -87,7 +112,7 @@ def run(ctx):
         "model — a collision of a candidate name with an ABSENT destination of the form safe<digits> (probability 2^-63 "
         "per attempt) is the one case excluded by hypothesis in full_dest_old_or_new and shown by an example",
     ]
-    ctx.lean(props=["Props.C14"], drivers=["drv_c14"])
+    ctx.lean(props=["Props.C14", "Props.C14Hist", "Props.C14Race", "Props.C14RaceHist"], drivers=["drv_c14"])
     if not ctx.harness("./cmd/c14"):
         return
     _calibrate(ctx)
@@ -100,6 +125,12 @@ def run(ctx):
                     timeout=300)
     ctx.diff(area="api", driver="drv_c14", n={"quick": 6000, "thorough": 300000}, stateful=True, theorem=thm, timeout=300,
              what="in-process history of safe.File; output = result code, destination state, temporary file state")
+    ctx.diff(area="duo", driver="drv_c14", n={"quick": 1500, "thorough": 60000}, stateful=True, timeout=300,
+             theorem="C14.two_histories_old_or_A_or_B / two_histories_temp_isolated are about interleavings of Safe.File.stepsU "
+                     "of two handles; implementation != model on this input",
+             what="TWO safe.File handles on one destination in one process, their calls interleaved call by call (a "
+                  "deterministic realisation of the interleavings of Props/C14RaceHist.lean); output = result, destination, "
+                  "both temporary files; A and B write different byte streams")
     ctx.diff(area="paths", driver="drv_c14", n={"quick": 500, "thorough": 20000}, theorem=thm, timeout=300,
              what="names: the model's Clean/Dir against filepath.Clean/Dir; CreateTemp's naming (prefix, suffix, decimal "
                   "middle of 12 files made by fs.CreateTemp) for patterns with/without '*', separators, '.', '..', empty, "
@@ -130,9 +161,18 @@ def run(ctx):
         ctx.diff(area="trace", driver="drv_c14", n={"quick": 1, "thorough": 1}, shards=shards, theorem=thm, timeout=1500,
                  what="child process under strace: seq = system calls touching the destination directory (temporary "
                       "name abstracted), fault = strace inject error, kill = SIGKILL on entry to the j-th call of a kind")
-        ctx.impl_oracle("compound", 1, label="strace, two faults in one run: {callback error, panic, write, rename} x "
-                        "{close, unlink of the cleanup path}; the primary error is returned, destination untouched, "
-                        "no rename", timeout=600)
+        thm2 = ("C14.history_refines_spec / history_every_kill_point / full_api_history are about Safe.File.stepsU and "
+                "Safe.apiRunFull, C14.multi_fault_* about Safe.writeFileMulti; implementation != model on this input")
+        ctx.diff(area="hist", driver="drv_c14", n={"quick": 200, "thorough": 6000}, shards=shards, theorem=thm2, timeout=1500,
+                 tagger=_hist_tag,
+                 what="child process under strace: an arbitrary history of the safe.File API (Write / Commit / Close / "
+                      "embedded Close in any order, after Create or CreateWithMode) with a fault injected on ANY of its "
+                      "system calls (one per name: the j-th write, close, rename, unlink, or the open) and SIGKILL on entry "
+                      "to any call; output = system calls, result of every call, destination, temporary file, reader")
+        ctx.diff(area="multi", driver="drv_c14", n={"quick": 1, "thorough": 1}, shards=shards, theorem=thm2, timeout=1500,
+                 what="child process under strace, two or three faults in one WriteFileWithMode: {callback error, panic, "
+                      "write, close, rename} x {close(2) of the deferred Close, unlink of the cleanup, both}; expected "
+                      "output from Safe.writeFileMulti (until this round a harness-judged oracle)")
         ctx.extra["trace_enumeration"] = {
             "exhaustive": True,
             "runs": ctx.evals - before,
